@@ -82,7 +82,7 @@ def stepPool (P : Params) (p : Pool) : Step → Pool
   | .arrive sid data =>
     if queuedCount p.tasks ≥ P.qcap then
       -- `tryEnqueue` refused: `sendErrorResponse(503)` sends and closes at once, on the I/O thread
-      { p with log := p.log ++ tag sid overflowCmds, ledger := p.ledger ++ tag sid overflowCmds }
+      { p with log := p.log ++ tag sid (overflowCmds (isHeadRaw data)), ledger := p.ledger ++ tag sid (overflowCmds (isHeadRaw data)) }
     else
       { p with tasks := p.tasks ++ [{ sid := sid, cmds := P.respond sid data }],
                ledger := p.ledger ++ tag sid (P.respond sid data) }
